@@ -1578,3 +1578,17 @@ MUTANTS.append({"id": "C19-indent-through-streambuf-iterator", "prop": "C19", "e
 MUTANTS.append({"id": "C19-benign-indent-through-ostream-iterator", "prop": "C19", "expect": None, "benign": True,
   "edits": [("src/dtoolbase/indent.cxx", "#include \"indent.h\"\n", "#include \"indent.h\"\n#include <algorithm>\n#include <iterator>\n"),
             ("src/dtoolbase/indent.cxx", "  for (int i = 0; i < indent_level; i++) {\n    out << ' ';\n  }\n", "  std::fill_n(std::ostream_iterator<char>(out), indent_level, ' ');\n")]})
+
+# ---------------------------------------------------------------- R18.7 (seed S6-C18)
+M("C18-cached-power-product-truncated", "C18", "src/dtoolbase/pdtoa.cxx",
+  "    uint64_t h = p >> 64;\n    uint64_t l = static_cast<uint64_t>(p);\n    if (l & (uint64_t(1) << 63)) // rounding\n      h++;\n    return DiyFp(h, e + rhs.e + 64);\n#else",
+  "    return DiyFp(static_cast<uint64_t>(p >> 64), e + rhs.e + 64);\n#else",
+  expect="R18.7|DiyFp::operator*|rounded-upper-half")
+M("C18-benign-product-rounding-by-addition", "C18", "src/dtoolbase/pdtoa.cxx",
+  "    uint64_t h = p >> 64;\n    uint64_t l = static_cast<uint64_t>(p);\n    if (l & (uint64_t(1) << 63)) // rounding\n      h++;\n    return DiyFp(h, e + rhs.e + 64);\n#else",
+  "    uint64_t h = p >> 64;\n    uint64_t l = static_cast<uint64_t>(p);\n    h += l >> 63;\n    return DiyFp(h, e + rhs.e + 64);\n#else",
+  benign=True)
+M("C18-benign-product-portable-branch", "C18", "src/dtoolbase/pdtoa.cxx",
+  "#elif (__GNUC__ > 4 || (__GNUC__ == 4 && __GNUC_MINOR__ >= 6)) && defined(__x86_64__)\n    unsigned __int128 p",
+  "#elif 0\n    unsigned __int128 p",
+  benign=True)
